@@ -251,6 +251,15 @@ func (w *kqueue) Close() error {
 		w.Remove(name)
 	}
 
+	// Remove() does nothing any more once the watcher is marked as closed, so
+	// release the watch descriptors here.
+	for _, name := range pathsToRemove {
+		if info, ok := w.watches.byPath(name); ok {
+			unix.Close(info.wd)
+			w.watches.remove(info.wd, name)
+		}
+	}
+
 	unix.Close(w.closepipe[1]) // Send "quit" message to readEvents
 	return nil
 }
